@@ -9,7 +9,7 @@
    the LHS write) in full; and four refutations, each replayed on the implementation by the check. *)
 From Coq Require Import List ZArith Bool.
 Import ListNotations.
-From PV Require Import Fort.Syntax Fort.Sem C11.Access C11.Proofs C11.Ext.
+From PV Require Import Fort.Syntax Fort.Sem C11.Access C11.Proofs C11.Ext C11.Order.
 
 (* core MiniFortran (assignments, IF, DO, EXIT/CYCLE/RETURN, regions, directives), all stores, all fuels *)
 Theorem C11_access_covers_reads_partial : forall fuel ss st st' tr c,
@@ -76,6 +76,21 @@ Theorem C11_loop_var_written_first : forall x lo hi st body loc,
   is_written_first x (fst (acc_stmt (SDo x lo hi st body) loc)) = true.
 Proof. exact loop_var_written_first_. Qed.
 Print Assumptions C11_loop_var_written_first.
+
+(* order between statements: locations never decrease along the report; a later statement of a block
+   only has locations >= those of an earlier one *)
+Theorem C11_locations_monotone : forall ss loc,
+  (loc <= snd (acc_block ss loc))%nat /\ between loc (snd (acc_block ss loc)) (fst (acc_block ss loc)) /\
+  mono (fst (acc_block ss loc)).
+Proof. exact locations_monotone_. Qed.
+Print Assumptions C11_locations_monotone.
+
+Theorem C11_later_statement_later_location : forall s1 rest loc a b,
+  In a (fst (acc_stmt s1 loc)) -> In b (fst (acc_block rest (snd (acc_stmt s1 loc)))) ->
+  (a_loc a <= a_loc b)%nat /\
+  fst (acc_block (s1 :: rest) loc) = fst (acc_stmt s1 loc) ++ fst (acc_block rest (snd (acc_stmt s1 loc))).
+Proof. exact later_statement_later_location_. Qed.
+Print Assumptions C11_later_statement_later_location.
 
 (* refutations of the full statement on the faithful model; each witness is replayed on the implementation *)
 Theorem C11_access_refuted_codeblock :
